@@ -37,6 +37,7 @@ type CallClause struct {
 	Callee string
 	Ord    int
 	Kind   string // assert | assume | ghost
+	After  bool
 	Ghost  string
 	Src    string
 	Expr   ast.Expr
@@ -314,6 +315,12 @@ func (cf *ContractFile) addClause(c *Contract, kw, text, path string, line int) 
 		f := strings.Fields(rest)
 		cc := &CallClause{Callee: site, Ord: ord, Kind: f[0]}
 		src := strings.TrimSpace(rest[len(f[0]):])
+		if f[0] == "after" {
+			cc.After = true
+			f = f[1:]
+			cc.Kind = f[0]
+			src = strings.TrimSpace(src[len(f[0]):])
+		}
 		if f[0] == "ghost" {
 			eq := strings.Index(src, "=")
 			cc.Ghost = strings.TrimPrefix(strings.TrimSpace(src[:eq]), "$")
@@ -559,6 +566,14 @@ func (e *CEnv) evalBool(x ast.Expr, src string) *Term {
 }
 
 func constToValue(c constant.Value, t types.Type) Value {
+	if isWide(t) {
+		ci := constant.ToInt(c)
+		if v, ok := constant.Val(ci).(*big.Int); ok {
+			return Scalar{IntConst(v)}
+		}
+		iv, _ := constant.Int64Val(ci)
+		return Scalar{IntConst(big.NewInt(iv))}
+	}
 	if w, _, ok := intInfo(t); ok {
 		ci := constant.ToInt(c)
 		if ci.Kind() != constant.Int {
@@ -581,14 +596,6 @@ func constToValue(c constant.Value, t types.Type) Value {
 	case isFloat(t):
 		f, _ := constant.Float64Val(c)
 		return Scalar{floatConst(f)}
-	}
-	if n, ok := t.(*types.Named); ok && n.Obj().Name() == "wide" {
-		ci := constant.ToInt(c)
-		if v, ok := constant.Val(ci).(*big.Int); ok {
-			return Scalar{BVConst(v, 128)}
-		}
-		iv, _ := constant.Int64Val(ci)
-		return Scalar{BVInt(iv, 128)}
 	}
 	panic("contract: cannot convert constant to " + typeKey(t))
 }
@@ -803,28 +810,35 @@ func (e *CEnv) evalBinary(n *ast.BinaryExpr) (Value, types.Type) {
 		}
 	}
 	if isWide(ta) || isWide(tb) {
-		// 128-bit ghost arithmetic: unsigned
+		// ghost arithmetic over mathematical integers
 		x, y := a.(Scalar).T, b.(Scalar).T
-		x, y = ZeroExt(x, 128), ZeroExt(y, 128)
+		if x.Sort != SInt {
+			_, sg, _ := intInfo(ta)
+			x = BVToInt(x, sg)
+		}
+		if y.Sort != SInt {
+			_, sg, _ := intInfo(tb)
+			y = BVToInt(y, sg)
+		}
 		switch n.Op {
 		case token.ADD:
-			return Scalar{BVAdd(x, y)}, wideType
+			return Scalar{IntAdd(x, y)}, wideType
 		case token.SUB:
-			return Scalar{BVSub(x, y)}, wideType
+			return Scalar{IntSub(x, y)}, wideType
 		case token.MUL:
-			return Scalar{BVMul(x, y)}, wideType
+			return Scalar{IntMul(x, y)}, wideType
 		case token.EQL:
 			return Scalar{Eq(x, y)}, boolT
 		case token.NEQ:
 			return Scalar{Neq(x, y)}, boolT
 		case token.LSS:
-			return Scalar{BVUlt(x, y)}, boolT
+			return Scalar{IntLt(x, y)}, boolT
 		case token.LEQ:
-			return Scalar{BVUle(x, y)}, boolT
+			return Scalar{IntLe(x, y)}, boolT
 		case token.GTR:
-			return Scalar{BVUgt(x, y)}, boolT
+			return Scalar{IntLt(y, x)}, boolT
 		case token.GEQ:
-			return Scalar{BVUge(x, y)}, boolT
+			return Scalar{IntLe(y, x)}, boolT
 		}
 		e.fail("unsupported wide operator %s", n.Op)
 	}
@@ -989,7 +1003,7 @@ func (e *CEnv) evalCall(n *ast.CallExpr) (Value, types.Type) {
 				for _, nm := range fld.Names {
 					srt, ok := scalarSort(tt.T)
 					if isWide(tt.T) {
-						srt, ok = SBV(128), true
+						srt, ok = SInt, true
 					}
 					if !ok {
 						e.fail("quantified variable %s must have a scalar type", nm.Name)
@@ -1059,6 +1073,17 @@ func (e *CEnv) evalCall(n *ast.CallExpr) (Value, types.Type) {
 			i := e.idx(n.Args[1])
 			ln := e.idx(n.Args[2])
 			return Scalar{p.strOfBytes(e.st, SliceV{Ref: s.Ref, Off: BVAdd(s.Off, i), Len: ln, Cap: ln, Elem: s.Elem})}, types.Typ[types.String]
+		case "ite":
+			cnd := e.evalBoolArg(n.Args[0])
+			a, ta := e.eval(n.Args[1])
+			b, tb := e.eval(n.Args[2])
+			if _, ok := a.(constV); ok {
+				a, ta = materialize(a, tb)
+			}
+			if _, ok := b.(constV); ok {
+				b, tb = materialize(b, ta)
+			}
+			return e.p.iteValue(e.st, cnd, a, b), ta
 		case "in":
 			k, _ := e.eval(n.Args[0])
 			mv, _ := e.eval(n.Args[1])
@@ -1146,16 +1171,17 @@ func (e *CEnv) convert(v Value, from types.Type, to types.Type) Value {
 	}
 	if isWide(to) {
 		t := v.(Scalar).T
-		if _, signed, ok := intInfo(from); ok && signed {
-			return Scalar{SignExt(t, 128)}
+		if t.Sort == SInt {
+			return v
 		}
-		return Scalar{ZeroExt(t, 128)}
+		_, signed, _ := intInfo(from)
+		return Scalar{BVToInt(t, signed)}
 	}
 	fw, fsigned, fok := intInfo(from)
 	tw, _, tok := intInfo(to)
 	_ = fw
 	if isWide(from) && tok {
-		return Scalar{Extract(v.(Scalar).T, tw-1, 0)}
+		return Scalar{B.mk(fmt.Sprintf("(_ int2bv %d)", tw), SBV(tw), v.(Scalar).T)}
 	}
 	if fok && tok {
 		t := v.(Scalar).T
